@@ -52,6 +52,13 @@ type run struct {
 	t0  *xmltree.Node
 	ld  *lexDoc
 	idx map[*xmltree.Node]int
+	// nonterm: a token stream of this case did not end within its bound (already
+	// reported); readers without a bound of their own (Decode) are not run on
+	// the case any more, they would not return
+	nonterm bool
+	// normGot, when set, is applied to the tree read back from an output or a
+	// token stream before it is compared (parts the statement does not cover)
+	normGot func(*xmltree.Node) *xmltree.Node
 }
 
 func (r *run) report(op, feature, what, capture, observed, detail string) {
@@ -133,6 +140,9 @@ func (r *run) checkMarshal(op, capture string, v interface{}, want *xmltree.Node
 			r.c.Observe("strict_vs_encodingxml_reader", "agree on output", 1)
 		}
 	}
+	if r.normGot != nil {
+		got = r.normGot(got)
+	}
 	if d := firstDiff(want, got); d != nil {
 		r.c.Observe("marshal_outcome", op+": tree differs", 1)
 		f := d.feature(r.ld, r.idx)
@@ -154,9 +164,15 @@ func (r *run) checkTokens(capture string, raw *internal.RawXMLValue, want *xmltr
 		return
 	}
 	if o.Problem != "" {
+		if o.Problem == "not-finite-within-bound" {
+			r.nonterm = true
+		}
 		r.c.Observe("token_stream", o.Problem, 1)
 		r.report("tokens", o.Problem, "token stream of a raw value: "+o.Problem+" ("+o.Detail+")", capture, "", o.Detail)
 		return
+	}
+	if r.normGot != nil {
+		o.Tree = r.normGot(o.Tree)
 	}
 	if d := firstDiff(want, o.Tree); d != nil {
 		r.c.Observe("token_stream", "tree differs", 1)
@@ -211,7 +227,7 @@ func (h *hookReader) Token() (xml.Token, error) {
 // must denote the captured tree.
 func (r *run) checkInterleaved(capture string, raw *internal.RawXMLValue, want *xmltree.Node) {
 	total := r.ld.Tokens
-	if total > 400 {
+	if total > 400 || r.nonterm {
 		return
 	}
 	bound := 2*total + 2
@@ -283,6 +299,9 @@ func (r *run) sameDecode(op, shape, capture string, errR, errD error, viaRaw, di
 }
 
 func (r *run) decodeRaw(op, capture string, raw *internal.RawXMLValue, v interface{}) (err error, ok bool) {
+	if r.nonterm {
+		return nil, false
+	}
 	if p, pv, st := fw.Guard(func() { err = raw.Decode(v) }); p {
 		r.report(op, "panic "+fw.PanicSite(st), fmt.Sprintf("Decode panicked: %v", pv), capture, "", st)
 		return nil, false
@@ -299,6 +318,48 @@ func (r *run) captureFailed(capture string, err error) {
 // the captured child elements in order.
 func syntheticRoot(space, local string, kids []*xmltree.Node) *xmltree.Node {
 	return &xmltree.Node{Kind: xmltree.Element, Space: space, Local: local, Children: kids}
+}
+
+// checkConstructed: captured values written out again as the children of a
+// value built with NewRawXMLElement (given the name and attributes of the
+// original root): a constructed parent over captured children, in the token
+// stream and written out. Judged: the child elements are the captured trees,
+// in order. Not judged: the name and attributes of the constructed element
+// itself (it was not captured; constructed elements belong to C11). Building
+// a value must not change what was captured.
+func (r *run) checkConstructed(captured []internal.RawXMLValue, kids []*xmltree.Node) {
+	if r.nonterm {
+		return
+	}
+	const capture = "constructed over any-children"
+	want := syntheticRoot("", "constructed", kids)
+	var attrs []xml.Attr
+	for _, a := range r.t0.Attrs {
+		attrs = append(attrs, xml.Attr{Name: xml.Name{Space: a.Space, Local: a.Local}, Value: a.Value})
+	}
+	children := append([]internal.RawXMLValue(nil), captured...)
+	var built *internal.RawXMLValue
+	if p, pv, st := fw.Guard(func() {
+		built = internal.NewRawXMLElement(xml.Name{Space: r.t0.Space, Local: r.t0.Local}, attrs, children)
+	}); p {
+		r.report("construct", "panic "+fw.PanicSite(st), fmt.Sprintf("NewRawXMLElement panicked: %v", pv), capture, "", st)
+		return
+	}
+	if built == nil {
+		r.c.Observe("capture", capture+": nil (not judged)", 1)
+		return
+	}
+	r.c.Observe("capture", capture, 1)
+	r.normGot = func(n *xmltree.Node) *xmltree.Node { return syntheticRoot("", "constructed", n.Elems()) }
+	r.checkTokens(capture, built, want)
+	r.checkMarshal("marshal-in-container", capture, built, want)
+	r.normGot = nil
+	// the captured values are what they were
+	for i := range captured {
+		if wideSample(i, len(kids)) {
+			r.checkTokens("any-child after use in a constructed value", &captured[i], kids[i])
+		}
+	}
 }
 
 func execTree(c *fw.Ctx, cs c15Case, abstract *xmltree.Node) {
@@ -361,6 +422,7 @@ func execTree(c *fw.Ctx, cs c15Case, abstract *xmltree.Node) {
 			}
 			if len(kids) > 0 {
 				r.checkMarshal("marshal-in-container", "any-children", &w, syntheticRoot(r.t0.Space, r.t0.Local, kids))
+				r.checkConstructed(w.Raw, kids)
 			}
 		}
 	}
@@ -513,6 +575,9 @@ func firstNamed(kids []*xmltree.Node, space, local string) *xmltree.Node {
 // decodeVsStandalone compares a typed value obtained through the container
 // API with the one decoded directly from the property element on its own.
 func (r *run) decodeVsStandalone(op string, sp *typeSpec, sub *xmltree.Node, dec func(v interface{}) error) {
+	if r.nonterm {
+		return
+	}
 	viaRaw := sp.New()
 	var errR error
 	if p, pv, st := fw.Guard(func() { errR = dec(viaRaw) }); p {
@@ -678,7 +743,7 @@ type presentProp struct {
 // Sequences: every pair of neighbours in both orders, and all typed
 // properties present at once.
 func (r *run) checkDecodePropMulti(resp *internal.Response, present []presentProp) {
-	if len(present) < 2 {
+	if len(present) < 2 || r.nonterm {
 		return
 	}
 	var seqs [][]presentProp
